@@ -124,6 +124,7 @@ theorem safeAt_of_quiescent {s0 : FS} {path : String} (hq : Quiescent s0 path) (
 /-! ### phase 1: temporary file open, being written -/
 
 structure Inv1 (s0 : FS) (path tmp : String) (fd : Nat) (acc : Bytes) (s : FS) : Prop where
+  next : s.next = s0.next + 1
   dirPath : s.dir path = s0.dir path
   histPath : ∀ d ∈ s.dirHist, d path = s0.dir path
   inoSame : ∀ i, i ≠ s0.next → s.ino i = s0.ino i
@@ -136,6 +137,7 @@ theorem inv1_open {s0 : FS} {path tmp : String} (fd : Nat) (trunc : Bool)
     Inv1 s0 path tmp fd [] (step s0 (.openF fd tmp true true trunc false)) := by
   simp only [step, hfresh, if_true]
   constructor
+  · rfl
   · simp [updS, Ne.symm hne]
   · intro d hd
     simp only [List.mem_append, List.mem_singleton] at hd
@@ -152,6 +154,7 @@ theorem inv1_write {s0 : FS} {path tmp : String} {fd : Nat} {acc : Bytes} {s : F
     Inv1 s0 path tmp fd (acc ++ d) (step s (.write fd d)) := by
   simp only [step, h.fdE]
   constructor
+  · exact h.next
   · exact h.dirPath
   · exact h.histPath
   · intro i hi; simp [upd, hi, h.inoSame i hi]
@@ -207,6 +210,7 @@ theorem inv1_writes {s0 : FS} {path tmp : String} {fd : Nat} (cs : List Bytes) :
 /-! ### phase 2: temporary file complete and on disk, not yet renamed -/
 
 structure Inv2 (s0 : FS) (path tmp : String) (new : Bytes) (s : FS) : Prop where
+  next : s.next = s0.next + 1
   dirPath : s.dir path = s0.dir path
   histPath : ∀ d ∈ s.dirHist, d path = s0.dir path
   inoSame : ∀ i, i ≠ s0.next → s.ino i = s0.ino i
@@ -218,6 +222,7 @@ theorem inv2_fsync {s0 : FS} {path tmp : String} {fd : Nat} {new : Bytes} {s : F
     (h : Inv1 s0 path tmp fd new s) : Inv2 s0 path tmp new (step s (.fsync fd)) := by
   simp only [step, h.fdE]
   constructor
+  · exact h.next
   · exact h.dirPath
   · exact h.histPath
   · intro i hi; simp [upd, hi, h.inoSame i hi]
@@ -228,7 +233,7 @@ theorem inv2_fsync {s0 : FS} {path tmp : String} {fd : Nat} {new : Bytes} {s : F
 theorem inv2_close {s0 : FS} {path tmp : String} {new : Bytes} {s : FS} (fd : Nat)
     (h : Inv2 s0 path tmp new s) : Inv2 s0 path tmp new (step s (.close fd)) := by
   simp only [step]
-  exact ⟨h.dirPath, h.histPath, h.inoSame, h.dirTmp, h.cur, h.clean⟩
+  exact ⟨h.next, h.dirPath, h.histPath, h.inoSame, h.dirTmp, h.cur, h.clean⟩
 
 theorem inv2_safe {s0 : FS} {path tmp : String} {new : Bytes} {s : FS}
     (hq : Quiescent s0 path) (h : Inv2 s0 path tmp new s) :
@@ -402,6 +407,173 @@ theorem atomicTrace_safe {s0 : FS} {fd : Nat} {tmp path : String} {trunc : Bool}
       · exact (ht.1 s hs).1
   · simp only [atomicTrace, run_cons, run_append]
     exact ht.2.2
+
+/-! ### durability of the completed save, chains of saves -/
+
+/-- From the rename on: `path` is bound to a clean inode holding the new content. -/
+def Done (path : String) (new : Bytes) (s : FS) : Prop :=
+  ∃ n, s.dir path = some n ∧ n < s.next ∧ (s.ino n).hist = [] ∧ (s.ino n).cur = new
+
+theorem done_rename {s0 : FS} {path tmp : String} {new : Bytes} {s : FS} (hne : tmp ≠ path)
+    (h : Inv2 s0 path tmp new s) : Done path new (step s (.rename tmp path)) := by
+  simp only [step, h.dirTmp, hne, if_false]
+  exact ⟨s0.next, by simp, by rw [h.next]; omega, h.clean, h.cur⟩
+
+theorem done_harmless {s : FS} {path : String} {new : Bytes} (op : Op) (hop : op.harmless = true)
+    (h : Done path new s) : Done path new (step s op) := by
+  obtain ⟨n, h1, h2, h3, h4⟩ := h
+  cases op with
+  | openDir fd => exact ⟨n, h1, h2, h3, h4⟩
+  | close fd => exact ⟨n, h1, h2, h3, h4⟩
+  | fsync fd =>
+    simp only [step]
+    split
+    · rename_i i _ _ _
+      refine ⟨n, h1, h2, ?_, ?_⟩
+      · by_cases hn : n = i
+        · subst hn; simp [upd]
+        · simp [upd, hn, h3]
+      · by_cases hn : n = i
+        · subst hn; simp [upd, h4]
+        · simp [upd, hn, h4]
+    · exact ⟨n, h1, h2, h3, h4⟩
+    · exact ⟨n, h1, h2, h3, h4⟩
+  | openF _ _ _ _ _ _ => simp [Op.harmless] at hop
+  | write _ _ => simp [Op.harmless] at hop
+  | rename _ _ => simp [Op.harmless] at hop
+  | ftruncate _ _ => simp [Op.harmless] at hop
+  | unlink _ => simp [Op.harmless] at hop
+  | other _ => simp [Op.harmless] at hop
+
+theorem dirHist_harmless {s : FS} (op : Op) (hop : op.harmless = true) (h : s.dirHist = []) :
+    (step s op).dirHist = [] := by
+  cases op with
+  | openDir fd => exact h
+  | close fd => exact h
+  | fsync fd => simp only [step]; split <;> simp [h]
+  | openF _ _ _ _ _ _ => simp [Op.harmless] at hop
+  | write _ _ => simp [Op.harmless] at hop
+  | rename _ _ => simp [Op.harmless] at hop
+  | ftruncate _ _ => simp [Op.harmless] at hop
+  | unlink _ => simp [Op.harmless] at hop
+  | other _ => simp [Op.harmless] at hop
+
+theorem run_harmless_dirHist (l : List Op) : ∀ (s : FS), (∀ op ∈ l, op.harmless = true) → s.dirHist = [] →
+    (run l s).dirHist = [] := by
+  induction l with
+  | nil => intro s _ h; exact h
+  | cons op r ih =>
+    intro s hl h
+    rw [run_cons]
+    exact ih _ (fun o ho => hl o (List.mem_cons_of_mem _ ho)) (dirHist_harmless op (hl op List.mem_cons_self) h)
+
+theorem run_harmless_done (l : List Op) {path : String} {new : Bytes} : ∀ (s : FS),
+    (∀ op ∈ l, op.harmless = true) → Done path new s → Done path new (run l s) := by
+  induction l with
+  | nil => intro s _ h; exact h
+  | cons op r ih =>
+    intro s hl h
+    rw [run_cons]
+    exact ih _ (fun o ho => hl o (List.mem_cons_of_mem _ ho)) (done_harmless op (hl op List.mem_cons_self) h)
+
+/-- A tail that opens and fsyncs the directory leaves no un-synced directory version. -/
+theorem run_tailDirSync (l : List Op) : ∀ (s : FS), (∀ op ∈ l, op.harmless = true) → tailDirSync l = true →
+    (run l s).dirHist = [] := by
+  induction l with
+  | nil => intro s _ h; simp [tailDirSync] at h
+  | cons op r ih =>
+    intro s hl h
+    simp only [tailDirSync, Bool.or_eq_true] at h
+    rcases h with h | h
+    · split at h
+      · rename_i d d' r2
+        simp only [Bool.and_eq_true, decide_eq_true_eq] at h
+        obtain ⟨hd, _⟩ := h
+        subst hd
+        have hr2 : ∀ o ∈ r2, o.harmless = true :=
+          fun o ho => hl o (List.mem_cons_of_mem _ (List.mem_cons_of_mem _ ho))
+        rw [run_cons, run_cons]
+        apply run_harmless_dirHist r2 _ hr2
+        simp [step, upd]
+      · simp at h
+    · rw [run_cons]
+      exact ih _ (fun o ho => hl o (List.mem_cons_of_mem _ ho)) h
+
+theorem quiescent_of_done {s : FS} {path : String} {new : Bytes} (h : Done path new s)
+    (hd : s.dirHist = []) : Quiescent s path ∧ readCur s path = some new := by
+  obtain ⟨n, h1, h2, h3, h4⟩ := h
+  refine ⟨⟨by simp [hd], ?_⟩, by simp [readCur, h1, h4]⟩
+  intro i hi
+  rw [h1] at hi
+  cases hi
+  exact ⟨h2, h3⟩
+
+theorem atomicTrace_quiescent {s0 : FS} {fd : Nat} {tmp path : String} {trunc : Bool} {chunks : List Bytes}
+    {tail : List Op} (hq : Quiescent s0 path) (hfresh : s0.dir tmp = none) (hne : tmp ≠ path)
+    (htail : ∀ op ∈ tail, op.harmless = true) (hsync : tailDirSync tail = true) :
+    Quiescent (run (atomicTrace fd tmp path trunc chunks tail) s0) path := by
+  have h1 := inv1_open fd trunc hq hfresh hne
+  have hend := (inv1_writes chunks [] _ h1).2
+  simp only [List.nil_append] at hend
+  have hc := inv2_close fd (inv2_fsync hend)
+  have hd := done_rename hne hc
+  simp only [atomicTrace, run_cons, run_append]
+  exact (quiescent_of_done (run_harmless_done tail _ htail hd) (run_tailDirSync tail _ htail hsync)).1
+
+theorem tailOf_atomicTrace (fd : Nat) (tmp path : String) (trunc : Bool) (chunks : List Bytes)
+    (tail : List Op) : tailOf (atomicTrace fd tmp path trunc chunks tail) = tail := by
+  have hs : ∀ cs : List Bytes,
+      splitWrites fd (cs.map (Op.write fd) ++ (.fsync fd :: .close fd :: .rename tmp path :: tail)) =
+        (cs, .fsync fd :: .close fd :: .rename tmp path :: tail) := by
+    intro cs
+    induction cs with
+    | nil => simp [splitWrites]
+    | cons c r ih => simp [splitWrites, ih]
+  simp [atomicTrace, tailOf, hs]
+
+/-- One durable save: safe at every crash point, and it leaves a quiescent state reading `new`. -/
+theorem durable_save {s0 : FS} {tr : List Op} {path : String} {new : Bytes} (hq : Quiescent s0 path)
+    (hfresh : ∀ t, tmpOf tr = some t → s0.dir t = none) (h : isDurableReplace tr path new = true) :
+    (∀ s ∈ crashStates tr s0, ∀ r ∈ plReads s path, r = readCur s0 path ∨ r = some new) ∧
+      Quiescent (run tr s0) path ∧ readCur (run tr s0) path = some new := by
+  simp only [isDurableReplace, Bool.and_eq_true] at h
+  obtain ⟨fd, tmp, trunc, chunks, tail, rfl, hne, rfl, htail⟩ := isAtomicReplace_shape h.1
+  have hs := atomicTrace_safe (fd := fd) (trunc := trunc) (chunks := chunks) hq (hfresh tmp rfl) hne htail
+  have hsync := h.2
+  rw [tailOf_atomicTrace] at hsync
+  exact ⟨fun s hs' => (hs.1 s hs').plReads, atomicTrace_quiescent hq (hfresh tmp rfl) hne htail hsync, hs.2⟩
+
+/-- Any number of durable saves in a row: at every crash point of the whole sequence, under power
+loss, `path` holds the content it had at the start or the complete content of one of the saves. -/
+theorem saves_safe (path : String) (saves : List (List Op × Bytes)) : ∀ (s0 : FS), Quiescent s0 path →
+    SavesOK path s0 saves →
+    ∀ s ∈ crashStates (saves.flatMap (·.1)) s0, ∀ r ∈ plReads s path,
+      r = readCur s0 path ∨ ∃ sv ∈ saves, r = some sv.2 := by
+  induction saves with
+  | nil =>
+    intro s0 hq _ s hs r hr
+    simp only [List.flatMap_nil, crashStates, List.mem_singleton] at hs
+    subst hs
+    rcases (safeAt_of_quiescent hq []).plReads r hr with h | h
+    · exact Or.inl h
+    · exact Or.inl (by
+        -- `new = []` was an arbitrary choice; re-run with a content that cannot be read
+        rcases (safeAt_of_quiescent hq [0]).plReads r hr with h' | h'
+        · exact h'
+        · rw [h] at h'; simp at h')
+  | cons sv rest ih =>
+    intro s0 hq hok s hs r hr
+    obtain ⟨hd, hfresh, hrest⟩ := hok
+    have h1 := durable_save hq hfresh hd
+    simp only [List.flatMap_cons, mem_crashStates_append] at hs
+    rcases hs with hs | hs
+    · rcases h1.1 s hs r hr with h | h
+      · exact Or.inl h
+      · exact Or.inr ⟨sv, List.mem_cons_self, h⟩
+    · rcases ih _ h1.2.1 hrest s hs r hr with h | ⟨sv', hm, h⟩
+      · rw [h1.2.2] at h
+        exact Or.inr ⟨sv, List.mem_cons_self, h⟩
+      · exact Or.inr ⟨sv', List.mem_cons_of_mem _ hm, h⟩
 
 /-! ### the unsafe variants -/
 
